@@ -1111,24 +1111,75 @@ func c12R1Dir(c *Ctx, fns []*ssa.Function) {
 
 func c12R1File(c *Ctx, fns []*ssa.Function) {
 	const R1 = "C12.R1.descriptor-describes-bytes"
-	fds := c12FnsCalling(fns, "digest.FromReader")
+	// file describer: fills in Descriptor.Digest from a file it opens itself (os.Open) — with digest.FromReader, or by
+	// copying the file into the Hash() of a digester whose Digest() it then takes — and is not the directory packer
+	var fds []*ssa.Function
+	for _, f := range fns {
+		if f.Parent() != nil || len(c12FieldStores(f, c12Desc, "Digest")) == 0 || len(CallsTo(f, "os.Open")) == 0 {
+			continue
+		}
+		isPacker := false
+		AllInstrs(f, func(in ssa.Instruction) {
+			if v, ok := in.(ssa.Value); ok && v.Type().String() == "*compress/gzip.Writer" {
+				isPacker = true
+			}
+		})
+		if !isPacker {
+			fds = append(fds, f)
+		}
+	}
 	if len(fds) == 0 {
-		c.LostAnchor(R1, "file describer: function of ~/content/file calling digest.FromReader")
+		c.LostAnchor(R1, "file describer: function of ~/content/file that opens a file and fills in Descriptor.Digest")
 		return
 	}
 	for _, F := range fds {
 		fn := FnName(F)
-		fr := CallsTo(F, "digest.FromReader")[0].(*ssa.Call)
-		// digest from the opened file
-		var pathArg ssa.Value
-		for _, r := range Roots(fr.Call.Args[0]) {
-			if ex, ok := r.(*ssa.Extract); ok && ex.Index == 0 {
-				if call, ok := ex.Tuple.(*ssa.Call); ok && CalleeName(call) == "os.Open" {
-					pathArg = call.Call.Args[0]
+		// the digest value, the reader it was computed from, and the call whose success means "digest complete"
+		var dres, src ssa.Value
+		var hashing *ssa.Call
+		how := ""
+		if frs := CallsTo(F, "digest.FromReader"); len(frs) > 0 {
+			hashing = frs[0].(*ssa.Call)
+			dres, src, how = ResultOf(hashing, 0), hashing.Call.Args[0], "digest.FromReader(os.Open(path))"
+		} else {
+			// io.Copy / io.CopyBuffer(d.Hash(), file) … d.Digest()
+			for _, cp := range CallsTo(F, "io.Copy", "io.CopyBuffer", "io.CopyN") {
+				cv, ok := cp.(*ssa.Call)
+				if !ok {
+					continue
+				}
+				var dg ssa.Value
+				for _, r := range Roots(cv.Call.Args[0]) {
+					if recv, _ := c12Invoke(r, "Hash"); recv != nil {
+						dg = recv
+					}
+				}
+				if dg == nil {
+					continue
+				}
+				for _, st := range c12FieldStores(F, c12Desc, "Digest") {
+					rs := Roots(st.Val)
+					if len(rs) != 1 {
+						continue
+					}
+					if recv, dcall := c12Invoke(rs[0], "Digest"); recv != nil && c11SameRoots(recv, dg) && MustPass(dcall, newCut().Instr(cv)) {
+						hashing, dres, src, how = cv, rs[0], cv.Call.Args[1], "Digest() of a digester fed by a copy of os.Open(path)"
+					}
 				}
 			}
 		}
-		dres := ResultOf(fr, 0)
+		if hashing == nil {
+			c.Violation(R1, fn+"|digest-of-opened-file", F.Pos(), "Descriptor.Digest is not computed from the opened file (neither digest.FromReader nor a digester fed by a copy of the file)")
+			continue
+		}
+		fr := hashing
+		// digest from the opened file
+		var pathArg ssa.Value
+		for _, call := range CallsTo(F, "os.Open") {
+			if f0 := ResultOf(call, 0); f0 != nil && c11DerivesFrom(src, map[ssa.Value]bool{f0: true}) {
+				pathArg = call.Common().Args[0]
+			}
+		}
 		dst := c12FieldStores(F, c12Desc, "Digest")
 		okDg := pathArg != nil && dres != nil && len(dst) > 0
 		for _, s := range dst {
@@ -1137,7 +1188,7 @@ func c12R1File(c *Ctx, fns []*ssa.Function) {
 			}
 		}
 		c.Check(R1, fn+"|digest-of-opened-file", fr.Pos(), okDg,
-			ifelse(okDg, "Descriptor.Digest is digest.FromReader(os.Open(path))", "Descriptor.Digest is not computed from the opened file"))
+			ifelse(okDg, "Descriptor.Digest is "+how, "Descriptor.Digest is not computed from the opened file"))
 		// success only behind a successful digest
 		okSucc := false
 		if e := ErrOf(fr); e != nil {
@@ -1146,7 +1197,7 @@ func c12R1File(c *Ctx, fns []*ssa.Function) {
 			okSucc = len(ne) > 0 && len(atoms) > 0 && c11AllAtomsPass(atoms, func() *cut { return newCut().Edges(ne...) })
 		}
 		c.Check(R1, fn+"|success-implies-digest-ok", fr.Pos(), okSucc,
-			ifelse(okSucc, "every successful return lies behind the err==nil edge of digest.FromReader", "a read error while digesting still yields a descriptor (with an empty/partial digest)"))
+			ifelse(okSucc, "every successful return lies behind the err==nil edge of the hashing of the file", "a read error while digesting still yields a descriptor (with an empty/partial digest)"))
 		// size from the FileInfo of the same path (taken here, or by the caller and handed over as FileInfo or as size)
 		sst := c12FieldStores(F, c12Desc, "Size")
 		okSize := len(sst) > 0 && pathArg != nil
